@@ -147,8 +147,36 @@ func (vc *VC) comp(key, sort string) string {
 		vc.compSort[key] = sort
 	}
 	n := "c0_" + sanitize(key)
-	vc.declareOnce("comp:"+key, fmt.Sprintf("(declare-const %s %s)", n, sort))
+	if !vc.declared["comp:"+key] {
+		vc.declareOnce("comp:"+key, fmt.Sprintf("(declare-const %s %s)", n, sort))
+		if f := memInv(key, sort, n, "c0_alloc"); f != "" {
+			vc.declareOnce("comp:alloc", "(declare-const c0_alloc (Array Int Bool))")
+			vc.compSort["alloc"] = "(Array Int Bool)"
+			vc.decls = append(vc.decls, "(assert "+f+")")
+		}
+	}
 	return n
+}
+
+// memInv: type invariant of memory contents — every slice header stored anywhere is well formed.
+// (The allocation part of well-formedness is added where values are loaded.)
+func memInv(key, sort, term, alloc string) string {
+	wf := func(x string) string {
+		return "(and (<= 0 (soff " + x + ")) (<= 0 (slen_ " + x + ")) (<= (slen_ " + x + ") (scap " + x + ")) (=> (= (sarr " + x + ") 0) (= (scap " + x + ") 0)) (or (= (sarr " + x + ") 0) (select " + alloc + " (rootOf (sarr " + x + ")))))"
+	}
+	switch {
+	case strings.HasPrefix(key, "E:") && sort == "(Array Int (Array Int Slice))":
+		x := "(select (select " + term + " r) i)"
+		return "(forall ((r Int) (i Int)) (! " + wf(x) + " :pattern (" + x + ")))"
+	case (strings.HasPrefix(key, "F:") || strings.HasPrefix(key, "P:")) && sort == "(Array Int Slice)":
+		x := "(select " + term + " r)"
+		return "(forall ((r Int)) (! " + wf(x) + " :pattern (" + x + ")))"
+	case strings.HasPrefix(key, "MV:") && strings.HasSuffix(sort, " Slice))"):
+		x := "(select (select " + term + " r) k)"
+		ks := strings.TrimSuffix(strings.TrimPrefix(sort, "(Array Int (Array "), " Slice))")
+		return "(forall ((r Int) (k " + ks + ")) (! " + wf(x) + " :pattern (" + x + ")))"
+	}
+	return ""
 }
 
 // ---------------------------------------------------------------- state
